@@ -191,6 +191,96 @@ theorem findBoundary_terminates (s : Bytes) (fuel e : Nat) (h : s.length + 2 ≤
       · simp only [a, b, ↓reduceIte]
         exact ih (e + 1) (by omega) (by omega)
 
+/-! ### UTF-8: where the char boundaries of an encoded text are -/
+
+theorem toNat_ofNat_lt (n : Nat) (h : n < 256) : (UInt8.ofNat n).toNat = n := by
+  rw [UInt8.toNat_ofNat']; omega
+
+theorem isCont_low (b : UInt8) (h : b.toNat < 128) : isCont b = false := by
+  simp only [isCont, Bool.and_eq_false_iff, decide_eq_false_iff_not]; omega
+theorem isCont_high (b : UInt8) (h : 192 ≤ b.toNat) : isCont b = false := by
+  simp only [isCont, Bool.and_eq_false_iff, decide_eq_false_iff_not]; omega
+theorem isCont_mid (b : UInt8) (h1 : 128 ≤ b.toNat) (h2 : b.toNat < 192) : isCont b = true := by
+  simp only [isCont, Bool.and_eq_true, decide_eq_true_eq]; omega
+
+/-- shape of a character's UTF-8 encoding: non-empty, first byte is not a continuation byte, all others are. -/
+theorem utf8EncodeChar_shape (c : Char) :
+    ∃ b rest, String.utf8EncodeChar c = b :: rest ∧ isCont b = false ∧ ∀ x ∈ rest, isCont x = true := by
+  unfold String.utf8EncodeChar
+  have hc : ∀ n : Nat, isCont (UInt8.ofNat (n % 64 + 128)) = true := by
+    intro n; apply isCont_mid <;> (rw [toNat_ofNat_lt _ (by omega)]; omega)
+  by_cases h1 : c.val.toNat ≤ 127
+  · refine ⟨_, [], by simp only [h1, ↓reduceIte]; rfl, ?_, by simp⟩
+    apply isCont_low; rw [toNat_ofNat_lt _ (by omega)]; omega
+  · by_cases h2 : c.val.toNat ≤ 2047
+    · refine ⟨_, _, by simp only [h1, h2, ↓reduceIte]; rfl, ?_, ?_⟩
+      · apply isCont_high; rw [toNat_ofNat_lt _ (by omega)]; omega
+      · intro x hx; simp only [List.mem_cons, List.not_mem_nil, or_false] at hx; subst hx; exact hc _
+    · by_cases h3 : c.val.toNat ≤ 65535
+      · refine ⟨_, _, by simp only [h1, h2, h3, ↓reduceIte]; rfl, ?_, ?_⟩
+        · apply isCont_high; rw [toNat_ofNat_lt _ (by omega)]; omega
+        · intro x hx; simp only [List.mem_cons, List.not_mem_nil, or_false] at hx
+          rcases hx with hx | hx <;> (subst hx; exact hc _)
+      · refine ⟨_, _, by simp only [h1, h2, h3, ↓reduceIte]; rfl, ?_, ?_⟩
+        · apply isCont_high; rw [toNat_ofNat_lt _ (by omega)]; omega
+        · intro x hx; simp only [List.mem_cons, List.not_mem_nil, or_false] at hx
+          rcases hx with hx | hx | hx <;> (subst hx; exact hc _)
+
+/-- the first byte of a non-empty encoded text is not a continuation byte -/
+theorem encode_head_not_cont (cs : List Char) (b : UInt8) (h : (encode cs)[0]? = some b) : isCont b = false := by
+  cases cs with
+  | nil => simp [encode] at h
+  | cons c cs =>
+    obtain ⟨b0, rest, he, hb, _⟩ := utf8EncodeChar_shape c
+    have : encode (c :: cs) = b0 :: (rest ++ encode cs) := by simp [encode, he]
+    rw [this] at h
+    simp at h; subst h; exact hb
+
+/-- In valid UTF-8 text, the char boundaries strictly inside / at the end of the character that starts at `|encode pre|`:
+none before its end, one at its end. -/
+theorem boundary_within_char (pre post : List Char) (c : Char) :
+    let s := encode (pre ++ c :: post)
+    let L := (encode pre).length
+    let n := (String.utf8EncodeChar c).length
+    (∀ k, 0 < k → k < n → isCharBoundary s (L + k) = false) ∧ isCharBoundary s (L + n) = true ∧ 0 < n ∧ L + n ≤ s.length := by
+  intro s L n
+  obtain ⟨b0, rest, he, hb, hrest⟩ := utf8EncodeChar_shape c
+  have hs : s = encode pre ++ (b0 :: rest) ++ encode post := by
+    show encode (pre ++ c :: post) = _
+    simp [encode, he]
+  have hn : n = rest.length + 1 := by show (String.utf8EncodeChar c).length = _; rw [he]; simp
+  refine ⟨?_, ?_, by omega, ?_⟩
+  · intro k hk0 hkn
+    have hget : s[L + k]? = some (rest[k - 1]'(by omega)) := by
+      rw [hs, List.append_assoc, List.getElem?_append_right (by show (encode pre).length ≤ L + k; omega)]
+      have : L + k - (encode pre).length = k := by show (encode pre).length + k - (encode pre).length = k; omega
+      rw [this, List.getElem?_append_left (by simp; omega)]
+      cases k with
+      | zero => omega
+      | succ k => simp [List.getElem?_eq_getElem (show k < rest.length by omega)]
+    unfold isCharBoundary
+    rw [if_neg (by omega), hget]
+    simp [hrest _ (List.getElem_mem _)]
+  · unfold isCharBoundary
+    rw [if_neg (by omega)]
+    have hidx : s[L + n]? = (encode post)[0]? := by
+      rw [hs, List.getElem?_append_right (by simp; show (encode pre).length + (rest.length + 1) ≤ L + n; omega)]
+      congr 1
+      simp; show (encode pre).length + n - ((encode pre).length + (rest.length + 1)) = 0; omega
+    rw [hidx]
+    cases hp : (encode post)[0]? with
+    | none =>
+      simp only
+      have : (encode post) = [] := by
+        cases hq : encode post with
+        | nil => rfl
+        | cons x xs => rw [hq] at hp; simp at hp
+      rw [hs, this]; simp; show (encode pre).length + n = (encode pre).length + (rest.length + 1); omega
+    | some b =>
+      simp only
+      rw [encode_head_not_cont post b hp]; rfl
+  · rw [hs]; simp; show (encode pre).length + n ≤ _; omega
+
 /-- `ParseError::new` is total for `startPos ≤ errPos ≤ |initial|`. -/
 theorem parseErrorNew_total (initial : Bytes) (startPos errPos : Nat)
     (h1 : startPos ≤ errPos) (h2 : errPos ≤ initial.length) :
